@@ -37,13 +37,21 @@ pub fn run(rep: &mut Rep) {
         pub_ack_variants: vec![(0, 0), (3, 1)],
         ..Default::default()
     };
-    rep.note(&format!("exhaustive: Receive Maximum R in {{1,2,3}}: every history of <= {depth} actions over {{publish QoS 0/1/2, deliver PUBACK/PUBREC/PUBCOMP of any outstanding publish with success or failure reason}}, model compared at every step, hook H3 conservation invariant (internal quota + outstanding = R) at every step, end-of-script probe (exactly R - outstanding further publishes accepted)"));
-    for r in [1u16, 2, 3] {
-        let name = format!("exh-r{r}");
+    rep.note(&format!("exhaustive: Receive Maximum R in {{1,2,3}}: every history of <= {depth} actions over {{publish QoS 0/1/2, deliver PUBACK/PUBREC/PUBCOMP of any outstanding publish with success or failure reason}}, also with Maximum Packet Size 64 and 300-byte publishes that must be refused without touching the quota; model compared at every step, hook H3 conservation invariant (internal quota + outstanding = R) at every step, end-of-script probe (exactly R - outstanding further publishes accepted)"));
+    // with a Maximum Packet Size announced as well: publishes refused for their size must not touch the quota
+    let mut am = a.clone();
+    am.kinds = vec![Kind::Pub1, Kind::Pub2, Kind::PubBig];
+    for (r, m) in [(1u16, None), (2, None), (3, None), (1, Some(64u32)), (2, Some(64))] {
+        let name = format!("exh-r{r}-m{}", m.unwrap_or(0));
         let seed = rep.seed;
+        let a = if m.is_some() { &am } else { &a };
+        let depth = if m.is_some() { depth - 1 } else { depth };
         let body = |rep: &mut Rep, ch: &mut Chooser| {
-            let mut w = World::boot(WorldCfg { seed, receive_max: Some(r), h3: true, ..Default::default() });
-            let acts = run_path(&mut w, &a, ch);
+            let mut w = World::boot(WorldCfg { seed, receive_max: Some(r), max_packet: m, h3: true, ..Default::default() });
+            let acts = run_path(&mut w, a, ch);
+            if m.is_some() {
+                rep.add("oversize_publishes_in_quota_histories", acts.iter().filter(|x| matches!(x, Act::Start(Kind::PubBig))).count() as i64);
+            }
             if ch.probe {
                 return;
             }
@@ -51,7 +59,7 @@ pub fn run(rep: &mut Rep) {
             probe_and_report(rep, &mut w, &id);
             rep.add("evaluations", 1);
             rep.add("paths_enumerated", 1);
-            rep.distinct(&(r, w.shape()));
+            rep.distinct(&(r, m, w.shape()));
             if harvest(rep, &mut w, &id) == 0 && acts.len() == depth {
                 rep.sample(|| format!("{id} R={r} {:?}", acts));
             }
